@@ -591,6 +591,148 @@ theorem incremental_eq_union (sem : α → Rat) (δ : Rat) (hδ : 0 ≤ δ)
     refine incremental_value dom sem δ hδ hdom old new g' ?_
     exact (extractDominated_perm dom (old ++ new)).mem_iff.mp (List.mem_append_left _ hg')
 
+/-! ## 4. for a transitive test the kept range is an antichain -/
+
+theorem edScan_length : ∀ (rp A : List α) (tv : α) (B rem : List α),
+    (edScan dom rp A tv B rem).1.length + (edScan dom rp A tv B rem).2.2.1.length
+      ≤ rp.length + A.length + B.length
+  | [], A, tv, B, rem => by simp [edScan]
+  | x :: rp, A, tv, B, rem => by
+    cases h : dom x tv with
+    | true =>
+      rw [edScan_cons_pos dom h]
+      have := edScan_length rp [] x (rotLast A B) (tv :: rem)
+      have hl := (rotLast_perm A B).length_eq
+      simp only [List.length_append, List.length_cons, List.length_nil] at *
+      omega
+    | false =>
+      rw [edScan_cons_neg dom h]
+      have := edScan_length rp (x :: A) tv B rem
+      simp only [List.length_cons] at *
+      omega
+
+/-- scan invariant for a transitive test: no kept entry and no visited live entry dominates the current
+    target; `Q` is any property of the live entries (they all come from the initial live range) -/
+theorem edScan_anti (htrans : ∀ a b c, dom a b = true → dom b c = true → dom a c = true)
+    (G : List α) (Q : α → Prop) : ∀ (rp A : List α) (tv : α) (B rem : List α),
+    (∀ g ∈ G, dom g tv = false) → (∀ a, a ∈ A ∨ a ∈ B → dom a tv = false) →
+    (∀ y, y ∈ rp ∨ y ∈ A ∨ y = tv ∨ y ∈ B → Q y) →
+    (∀ g ∈ G, dom g (edScan dom rp A tv B rem).2.1 = false) ∧
+    (∀ a, a ∈ (edScan dom rp A tv B rem).1 ∨ a ∈ (edScan dom rp A tv B rem).2.2.1 →
+        dom a (edScan dom rp A tv B rem).2.1 = false) ∧
+    (∀ y, y ∈ (edScan dom rp A tv B rem).1 ∨ y = (edScan dom rp A tv B rem).2.1 ∨
+        y ∈ (edScan dom rp A tv B rem).2.2.1 → Q y)
+  | [], A, tv, B, rem, hG, hA, hQ => by
+    simp only [edScan]
+    exact ⟨hG, hA, fun y hy => hQ y (Or.inr hy)⟩
+  | x :: rp, A, tv, B, rem, hG, hA, hQ => by
+    cases h : dom x tv with
+    | true =>
+      rw [edScan_cons_pos dom h]
+      refine edScan_anti htrans G Q rp [] x (rotLast A B) (tv :: rem) ?_ ?_ ?_
+      · intro g hg
+        cases hgx : dom g x with
+        | false => rfl
+        | true => have := hG g hg; rw [htrans g x tv hgx h] at this; exact absurd this (by simp)
+      · intro a ha
+        simp only [List.not_mem_nil, false_or, mem_rotLast] at ha
+        cases hax : dom a x with
+        | false => rfl
+        | true => have := hA a ha; rw [htrans a x tv hax h] at this; exact absurd this (by simp)
+      · intro y hy
+        simp only [List.not_mem_nil, false_or, mem_rotLast] at hy
+        apply hQ
+        simp only [List.mem_cons]
+        tauto
+    | false =>
+      rw [edScan_cons_neg dom h]
+      refine edScan_anti htrans G Q rp (x :: A) tv B rem hG ?_ ?_
+      · intro a ha
+        simp only [List.mem_cons] at ha
+        rcases ha with (rfl | ha) | ha
+        · exact h
+        · exact hA a (Or.inl ha)
+        · exact hA a (Or.inr ha)
+      · intro y hy
+        apply hQ
+        simp only [List.mem_cons] at hy ⊢
+        tauto
+
+theorem edLoop_anti (htrans : ∀ a b c, dom a b = true → dom b c = true → dom a c = true) :
+    ∀ (n : Nat) (good U rem : List α), U.length ≤ n →
+    good.Pairwise (fun a b => dom a b = false ∧ dom b a = false) →
+    (∀ u ∈ U, ∀ g ∈ good, dom u g = false) →
+    (edLoop dom n good U rem).1.Pairwise (fun a b => dom a b = false ∧ dom b a = false)
+  | 0, good, U, rem, hn, hA, _ => by
+    have : U = [] := List.length_eq_zero_iff.mp (Nat.le_zero.mp hn)
+    subst this
+    simpa [edLoop] using hA
+  | n+1, good, U, rem, hn, hA, hB => by
+    cases h : U.getLast? with
+    | none => rw [edLoop_succ_none dom h]; exact hA
+    | some t =>
+      have hU := eq_dropLast_append_of_getLast? h
+      have hlen : U.dropLast.length + 1 = U.length := by
+        conv => rhs; rw [hU]
+        simp
+      have hmem : ∀ y, y ∈ U.dropLast ∨ y = t → y ∈ U := by
+        intro y hy
+        rw [hU]
+        simp only [List.mem_append, List.mem_cons, List.not_mem_nil, or_false]
+        exact hy
+      cases hd : good.any (fun g => dom g t) with
+      | true =>
+        rw [edLoop_succ_dom dom h n good rem hd]
+        exact edLoop_anti htrans n good U.dropLast (t :: rem) (by omega) hA
+          (fun u hu => hB u (hmem u (Or.inl hu)))
+      | false =>
+        rw [edLoop_succ_scan dom h n good rem hd]
+        have hG : ∀ g ∈ good, dom g t = false := by
+          intro g hg
+          cases hgt : dom g t with
+          | false => rfl
+          | true =>
+            have : good.any (fun g => dom g t) = true := List.any_eq_true.mpr ⟨g, hg, hgt⟩
+            rw [hd] at this; exact absurd this (by simp)
+        obtain ⟨i1, i2, i3⟩ := edScan_anti dom htrans good (fun y => ∀ g ∈ good, dom y g = false)
+          U.dropLast.reverse [] t [] rem hG (by intro a ha; simp at ha)
+          (by
+            intro y hy
+            simp only [List.mem_reverse, List.not_mem_nil, false_or, or_false] at hy
+            exact hB y (hmem y hy))
+        have hl := edScan_length dom U.dropLast.reverse [] t [] rem
+        generalize edScan dom U.dropLast.reverse [] t [] rem = r at i1 i2 i3 hl ⊢
+        refine edLoop_anti htrans n _ _ _ ?_ ?_ ?_
+        · rw [(afterPlace_perm r.1 r.2.2.1).length_eq]
+          simp only [List.length_append, List.length_reverse, List.length_nil] at hl ⊢
+          omega
+        · rw [List.pairwise_append]
+          refine ⟨hA, List.pairwise_singleton _ _, ?_⟩
+          intro a ha b hb
+          rw [List.mem_singleton] at hb
+          subst hb
+          exact ⟨i1 a ha, i3 _ (Or.inr (Or.inl rfl)) a ha⟩
+        · intro u hu g hg
+          rw [mem_afterPlace] at hu
+          rcases List.mem_append.mp hg with hg | hg
+          · exact i3 u (by tauto) g hg
+          · rw [List.mem_singleton] at hg
+            subst hg
+            exact i2 u hu
+
+theorem extractDominated_antichain
+    (htrans : ∀ a b c, dom a b = true → dom b c = true → dom a c = true) (xs : List α) :
+    (extractDominated dom xs).1.Pairwise (fun a b => dom a b = false ∧ dom b a = false) := by
+  unfold extractDominated
+  split
+  · rename_i h
+    match xs, h with
+    | [], _ => exact List.Pairwise.nil
+    | [a], _ => exact List.pairwise_singleton _ _
+    | _ :: _ :: _, h => exact absurd h (by simp)
+  · exact edLoop_anti dom htrans xs.length [] xs [] (Nat.le_refl _) List.Pairwise.nil
+      (by intro u _ g hg; simp at hg)
+
 end
 
 end AITB.Prune
